@@ -440,7 +440,19 @@ def choose(state, avail, rng, pol):
                     cards = few
             if len(cards) >= k:
                 pick = rng.sample(cards, k)
-                args = [''.join(map(repr, pick))]
+                toks = [repr(c) for c in pick]
+                if pol.get('mix_unknown') and k >= 2 and \
+                        rng.random() < pol['mix_unknown']:
+                    # one call mixing recorded and unrecorded (??) down cards
+                    st = list(s.hole_dealing_statuses[i])[:k]
+                    down = [j for j in range(k) if not st[j]]
+                    if len(down) >= 1:
+                        for j in rng.sample(down, rng.randint(
+                                1, max(1, len(down) - 1))):
+                            toks[j] = '??'
+                        if all(t == '??' for t in toks):
+                            toks[0] = repr(pick[0])
+                args = [''.join(toks)]
                 if rng.random() < 0.3:
                     args.append(i)
         elif dm == 'chunks' and rng.random() < 0.7:
@@ -924,3 +936,52 @@ class FinalShowdownRule(Monitor):
                         f'card was dealt (his last show/muck was operation '
                         f'#{self.last_show.get(i)}, the last deal '
                         f'#{self.last_deal})')
+
+
+class DiscardProbe(Monitor):
+    """At every draw decision the query is probed with discards a player
+    cannot make: a card he holds once named twice, more unknown cards than
+    he holds, other players' cards, an undealt card.  An accepted one is
+    then attempted on a deepcopy: if the query says yes the operation must
+    go through."""
+
+    name = 'discard-probe'
+
+    def on_decision(self, ctx, s, avail):
+        if 'stand_pat_or_discard' not in avail:
+            return
+        from copy import deepcopy
+        i = s.stander_pat_or_discarder_index
+        held = list(s.hole_cards[i])
+        ctx.counters['discard_probes'] += 1
+        probes = []
+        known = [c for c in held if c]
+        if known and held.count(known[0]) == 1:
+            probes.append(('a held card named twice',
+                           (known[0], known[0])))
+        nunk = sum(1 for c in held if not c)
+        probes.append(('more unknown cards than held', '??' * (nunk + 1)))
+        other = [c for j in s.player_indices if j != i and s.statuses[j]
+                 for c in s.hole_cards[j] if c and c not in held][:1]
+        other += [c for c in s.deck_cards if c not in held][:1]
+        for c in other:
+            probes.append(('a card he does not hold', (c,)))
+        for what, arg in probes:
+            try:
+                ok = s.can_stand_pat_or_discard(arg)
+            except Exception as exc:      # noqa: BLE001
+                ctx.violate(f'can_stand_pat_or_discard({arg!r}) raised '
+                            f'{type(exc).__name__}: {exc}')
+                return
+            if ok:
+                t = deepcopy(s)
+                try:
+                    t.stand_pat_or_discard(arg)
+                    ctx.violate(f'player {i} (hand {held}) may discard '
+                                f'{what}: {arg!r}')
+                except Exception as exc:   # noqa: BLE001
+                    ctx.violate(
+                        f'player {i} (hand {held}): the query accepts '
+                        f'discarding {what} ({arg!r}) but the operation '
+                        f'raises {type(exc).__name__}: {exc}')
+                return
